@@ -122,6 +122,20 @@ OpClauses(e, s, t) ==
     [] e.op = "pick_iter" ->
          Bool2Set(PickIterC(s, a.u, SeqSet(a.care), r), "sat.pick.cover")
          \cup (IF a.care_default THEN Bool2Set(PickIterDefaultC(s, a.u, r), "sat.pick.default") ELSE {})
+    [] e.op = "to_expr_rt" ->      \* add_expr(to_expr(u)) is u again
+         Bool2Set(r = a.u /\ IsRef(t, r) /\ Den(t, r) = Den(s, a.u), "expr.roundtrip")
+    [] e.op = "descendants" ->
+         Bool2Set(SeqSet(r) = Reach(s, SeqSet(a.roots) \cup {1}), "view.descendants")
+    [] e.op = "size" ->
+         Bool2Set(r = Cardinality(Reach(s, {a.u, 1})), "view.size")
+    [] e.op = "preimage" ->
+         IF ~PreimagePre(s, a.x, a.froms, a.tos) THEN {}
+         ELSE IF ~TargetUnprimed(s, a.x, a.tos)
+              THEN Bool2Set(PreimageC(s, t, a.trans, a.x, a.froms, a.tos, SeqSet(a.qvars), a.forall, r), "rel.preimage.primed_operand")
+         ELSE Bool2Set(PreimageC(s, t, a.trans, a.x, a.froms, a.tos, SeqSet(a.qvars), a.forall, r), "rel.preimage")
+    [] e.op = "image" ->
+         IF ~ImagePre(s, a.trans, a.x, a.froms, a.tos, SeqSet(a.qvars)) THEN {}
+         ELSE Bool2Set(ImageC(s, t, a.trans, a.x, a.froms, a.tos, SeqSet(a.qvars), a.forall, r), "rel.image")
     [] e.op = "pick" ->
          IF a.none THEN Bool2Set(Den(s, a.u) = {}, "sat.pick.none")
          ELSE Bool2Set(Den(s, a.u) # {} /\ CubeF(NV(s), AsgFn(s, r)) \subseteq Den(s, a.u), "sat.pick.model")
